@@ -5,6 +5,7 @@ package main
 import (
 	"fmt"
 	"go/ast"
+	"go/constant"
 	"go/token"
 	"go/types"
 	"sort"
@@ -104,6 +105,8 @@ func checkC10(c *Ctx) {
 
 	// ---- C10-AGREE: Go->record arms cover the field types of the registered demo structs
 	c.checkAgree()
+	c.checkNumericRange("C10-RANGE")
+	c.checkEmbedWalk("C10-EMBED")
 
 	// ---- C10-DEDUP
 	for _, name := range []string{"SexpToGoStructs", "SexpToGo"} {
@@ -666,5 +669,223 @@ func (c *Ctx) checkFreshTargets() {
 	}
 	if n == 0 {
 		c.undecided("C10-ALIAS", "SexpToGoStructs", "one target per converted element", f.Pos(), "no recursive conversion of slice elements with an allocated target found")
+	}
+}
+
+// checkNumericRange: C10-RANGE. reflect.Value.SetInt cuts its argument down to
+// the width of the field without a word, int64(f) of a float outside the int64
+// range is an arbitrary value, float64(i) of an integer above 2^53 is another
+// integer. Where the record -> Go converter stores a script number into a Go
+// field through one of these, a test that the value fits must come first (or
+// the field is known to be an int64 / float64 from the type-switch arm).
+func (c *Ctx) checkNumericRange(rule string) {
+	f := c.mustFn(rule, "SexpToGoStructs")
+	intVal := c.field("SexpInt", "Val")
+	fltVal := c.field("SexpFloat", "Val")
+	if f == nil || intVal == nil || fltVal == nil {
+		return
+	}
+	isReflectMethod := func(in ssa.Instruction, name string) (*ssa.Call, bool) {
+		call, ok := in.(*ssa.Call)
+		if !ok {
+			return nil, false
+		}
+		g := call.Call.StaticCallee()
+		if g == nil || fnPkgPath(g) != "reflect" || g.Name() != name {
+			return nil, false
+		}
+		return call, true
+	}
+	// the arm is entered only after the target was asserted to have the exact basic type
+	inArmOf := func(b *ssa.BasicBlock, kind types.BasicKind) bool {
+		return guardedBy(b, func(cond ssa.Value) (bool, bool) {
+			ex, ok := cond.(*ssa.Extract)
+			if !ok || ex.Index != 1 {
+				return false, false
+			}
+			ta, ok := ex.Tuple.(*ssa.TypeAssert)
+			if !ok {
+				return false, false
+			}
+			bt, ok := ta.AssertedType.(*types.Basic)
+			if !ok || bt.Kind() != kind {
+				return false, false
+			}
+			return true, true
+		})
+	}
+	dominatedByCall := func(in ssa.Instruction, name string) bool {
+		found := false
+		eachInstr(in.Parent(), func(b *ssa.BasicBlock, i int, x ssa.Instruction) {
+			if call, ok := isReflectMethod(x, name); ok && dominatesInstr(call, in) {
+				// its verdict is branched on
+				for _, r := range *call.Referrers() {
+					if _, ok := r.(*ssa.If); ok {
+						found = true
+					}
+					if bo, ok := r.(*ssa.BinOp); ok && bo.Referrers() != nil {
+						found = true
+					}
+				}
+			}
+		})
+		return found
+	}
+	n := 0
+	for _, g := range withClosures(f) {
+		eachInstr(g, func(b *ssa.BasicBlock, i int, in ssa.Instruction) {
+			// (a) SetInt
+			if call, ok := isReflectMethod(in, "SetInt"); ok {
+				n++
+				okFit := inArmOf(b, types.Int64) || dominatedByCall(in, "OverflowInt") || refusedBefore(in, "OverflowInt", isReflectMethod)
+				c.check(okFit, rule, fnName(g), "SetInt after a width test", call.Pos(),
+					"the field is an int64 by the type-switch arm, or OverflowInt is asked first",
+					"an integer is stored with reflect.Value.SetInt into a field whose width is not known, and OverflowInt is not consulted: SetInt truncates silently, so 300 stored into an int8 field becomes 44 and no error reaches the script")
+			}
+			// (b) float -> int64 conversion of a script float
+			if cv, ok := in.(*ssa.Convert); ok {
+				from, okF := cv.X.Type().Underlying().(*types.Basic)
+				to, okT := cv.Type().Underlying().(*types.Basic)
+				if okF && okT && from.Info()&types.IsFloat != 0 && to.Info()&types.IsInteger != 0 {
+					if _, isScript := loadOfField(cv.X, fltVal); isScript {
+						n++
+						lo, hi := false, false
+						for _, bb := range g.Blocks {
+							cond, t, e := condBranch(bb)
+							bo, ok := cond.(*ssa.BinOp)
+							if !ok {
+								continue
+							}
+							k, isK := bo.Y.(*ssa.Const)
+							if !isK || k.Value == nil || k.Value.Kind() != constant.Float && k.Value.Kind() != constant.Int {
+								continue
+							}
+							if _, same := loadOfField(bo.X, fltVal); !same {
+								continue
+							}
+							kv, _ := constant.Float64Val(constant.ToFloat(k.Value))
+							// the conversion runs only on the side where the bound holds
+							var okSide *ssa.BasicBlock
+							switch {
+							case (bo.Op == token.LSS || bo.Op == token.LEQ) && kv <= -9.2e18:
+								okSide = e
+								if okSide.Dominates(b) || pathOnlyThrough(bb, okSide, t, b) {
+									lo = true
+								}
+							case (bo.Op == token.GEQ || bo.Op == token.GTR) && kv >= 9.2e18:
+								okSide = e
+								if okSide.Dominates(b) || pathOnlyThrough(bb, okSide, t, b) {
+									hi = true
+								}
+							}
+						}
+						c.check(lo && hi, rule, fnName(g), "float to integer field after a range test", cv.Pos(),
+							"the float is compared with both ends of the int64 range before it is converted",
+							"a script float is converted with int64(f) for an integer field without a test against the int64 range: a whole float outside it (1e30, +Inf) is stored as an arbitrary integer (MinInt64) and no error reaches the script")
+					}
+				}
+				// (c) int64 -> float64 of a script integer
+				if okF && okT && from.Info()&types.IsInteger != 0 && to.Info()&types.IsFloat != 0 {
+					if _, isScript := loadOfField(cv.X, intVal); isScript {
+						n++
+						back := false
+						for _, r := range *cv.Referrers() {
+							if c2, ok := r.(*ssa.Convert); ok {
+								if tb, ok := c2.Type().Underlying().(*types.Basic); ok && tb.Info()&types.IsInteger != 0 {
+									for _, r2 := range *c2.Referrers() {
+										if bo, ok := r2.(*ssa.BinOp); ok && (bo.Op == token.NEQ || bo.Op == token.EQL) {
+											back = true
+										}
+									}
+								}
+							}
+						}
+						c.check(back, rule, fnName(g), "integer to float field after an exactness test", cv.Pos(),
+							"the float is converted back and compared with the integer before it is stored",
+							"a script integer is stored into a float field as float64(i) with no test that the conversion is exact: above 2^53 the field holds a different integer and no error reaches the script")
+					}
+				}
+			}
+		})
+	}
+	if n < 4 {
+		c.undecided(rule, "SexpToGoStructs", "numeric stores", f.Pos(), fmt.Sprintf("only %d numeric stores found in the converter (5 confirmed by reading)", n))
+	}
+}
+
+// pathOnlyThrough: after the branch in bb, the block target is reached only through side (the other side leaves the function).
+func pathOnlyThrough(bb, side, other, target *ssa.BasicBlock) bool {
+	if side == other {
+		return false
+	}
+	if !blockReaches(side, target) && side != target {
+		return false
+	}
+	return !(other == target || blockReaches(other, target))
+}
+
+// refusedBefore: some call of the named reflect test can reach `in`, and the
+// branch on which the test says "does not fit" cannot: the store happens only
+// for values that passed the test or for kinds the test does not apply to
+// (where the reflect setter itself refuses with a panic).
+func refusedBefore(in ssa.Instruction, name string, isReflectMethod func(ssa.Instruction, string) (*ssa.Call, bool)) bool {
+	ok := false
+	eachInstr(in.Parent(), func(b *ssa.BasicBlock, i int, x ssa.Instruction) {
+		call, is := isReflectMethod(x, name)
+		if !is || !(b == in.Block() || blockReaches(b, in.Block())) {
+			return
+		}
+		for _, r := range *call.Referrers() {
+			iff, isIf := r.(*ssa.If)
+			if !isIf {
+				continue
+			}
+			overflowSide := iff.Block().Succs[0]
+			if overflowSide != in.Block() && !blockReaches(overflowSide, in.Block()) {
+				ok = true
+			}
+		}
+	})
+	return ok
+}
+
+// checkEmbedWalk: C10-EMBED. The field table of a registered struct is flat:
+// fields promoted from embedded structs are listed next to the struct's own.
+// HashFieldDet.FieldNum is the field's index inside the struct that declares
+// it; only EmbedPath (a ChildFieldNum per level, from the top) leads from the
+// outer struct to the field. Both directions of the conversion must reach a
+// field through EmbedPath; reflect.Value.Field(det.FieldNum) on the outer
+// struct reads or writes another field for every promoted one.
+func (c *Ctx) checkEmbedWalk(rule string) {
+	fnum := c.mustField(rule, "HashFieldDet", "FieldNum")
+	child := c.mustField(rule, "EmbedPath", "ChildFieldNum")
+	if fnum == nil || child == nil {
+		return
+	}
+	nPath := 0
+	for _, f := range c.zygoFuncs() {
+		eachInstr(f, func(b *ssa.BasicBlock, i int, in ssa.Instruction) {
+			call, ok := in.(*ssa.Call)
+			if !ok {
+				return
+			}
+			g := call.Call.StaticCallee()
+			if g == nil || fnPkgPath(g) != "reflect" || g.Name() != "Field" || len(call.Call.Args) < 2 {
+				return
+			}
+			idx := call.Call.Args[len(call.Call.Args)-1]
+			if _, viaNum := loadOfField(idx, fnum); viaNum {
+				c.bad(rule, fnName(f), "field reached by its index in the declaring struct", call.Pos(),
+					"reflect.Value.Field is given HashFieldDet.FieldNum, the index inside the struct that declares the field, on the outer struct: for a field promoted from an embedded struct that is another field, so its value is lost or swapped with a neighbour's (and an index past the end panics)")
+				return
+			}
+			if _, viaPath := loadOfField(idx, child); viaPath {
+				nPath++
+				c.ok(rule, fnName(f), "field reached through its embed path", call.Pos(), "reflect.Value.Field walks EmbedPath level by level")
+			}
+		})
+	}
+	if nPath < 2 {
+		c.undecided(rule, "package", "embed-path walks", token.NoPos, fmt.Sprintf("only %d walks of EmbedPath found (one per direction of the conversion confirmed by reading)", nPath))
 	}
 }
